@@ -15,14 +15,37 @@ NEEDED = ["em." + f for f in (
     "planck", "planck_wavelength", "planck_wavenumber", "rayleighjeans", "rayleighjeans_wavelength",
     "radiance2planckTb", "radiance2rayleighjeansTb", "frequency2wavelength", "frequency2wavenumber",
     "wavelength2frequency", "wavelength2wavenumber", "wavenumber2frequency", "wavenumber2wavelength",
-    "snell", "snell_complex_n2", "fresnel")]
+    "snell", "snell_complex_n2", "fresnel", "fresnel_complex_n2")]
 REQ = "From Coq Require Import List.\nImport ListNotations.\nFrom TyphonGen Require Import em.\nFrom Typhon Require Import Model.C08_spectra."
+# enclosure of fresnel_complex_n2 in three stages (the argument y of asin, then theta2 = asin y, then the quotient with
+# theta2 as a variable carrying its enclosure): the one-shot `interval` on the zeta-expanded term costs 6 s per case
+# because theta2 occurs a dozen times; falls back to the one-shot form if the shape of snell_complex_n2 changes
+REQ += """
+Open Scope R_scope.
+Ltac c08_cprep_staged :=
+  match goal with |- context [fresnel_complex_n2 ?a ?b ?c ?d] =>
+    let e := eval cbv beta zeta delta [snell_complex_n2] in (snell_complex_n2 a b c d) in
+    match e with asin ?y * 180 / PI =>
+      let yy := fresh "yy" in let Hy := fresh "Hy" in let H := fresh "H" in let Hb := fresh "Hb" in let th := fresh "th" in
+      interval_intro y with (i_prec 80) as Hy;
+      assert (H : snell_complex_n2 a b c d = asin y * 180 / PI) by reflexivity;
+      set (yy := y) in Hy, H; clearbody yy;
+      rewrite (Ratan.asin_atan yy) in H by lra;
+      interval_intro (atan (yy / sqrt (1 - yy²)) * 180 / PI) with (i_prec 80) as Hb;
+      rewrite <- H in Hb; clear H Hy;
+      unfold fresnel_complex_n2; set (th := snell_complex_n2 a b c d) in *; clearbody th; clear yy;
+      cbv zeta; cbn [fst snd]
+    end end.
+Ltac c08_cprep := try first [ c08_cprep_staged
+  | unfold fresnel_complex_n2, snell_complex_n2; cbv zeta; cbn [fst snd]; rewrite Ratan.asin_atan by (split; interval) ].
+"""
 CONSTS = "c_planck, c_boltzmann, c_speed_of_light"
 TRUSTED = [
     "translator tools/translate (Python-ast -> Coq over R), fail-closed; float literals read as decimals (<= 2^-53 relative)",
     "IEEE-754 rounding is bridged pointwise by interval enclosures (tolerance scaled by the conditioning 1/x of exp(x)-1)",
     "per*2per* converters: hand model on lists (reshape / [::-1] / broadcasting of extra dimensions modelled, not translated)",
-    "complex refractive index n2: real arithmetic of the Snell branch is translated and enclosed; |R| <= 1 for complex n2 is only swept numerically",
+    "complex refractive index n2: the translator writes the complex arithmetic of fresnel() out on pairs of reals (n2 = n2_re + i n2_im; "
+    "+ - * / only, quotient as ((ac+bd) + i(bc-ad))/(cc+dd)); numpy's complex division is bridged by the enclosures of Re/Im of Rv, Rh",
 ]
 H, K, C = 6.62607015e-34, 1.380649e-23, 299792458.0
 
@@ -96,6 +119,12 @@ def enclosure_cases(ctx, em):
         v = em.snell(n1, complex(n2, ni), t)
         add("snell_complex_n2", f"snell_complex_n2 {r(n1)} {r(n2)} {r(ni)} {r(t)}", [n1, n2, ni, t], v,
             f"unfold snell_complex_n2; cbv zeta. {ASIN}", 1e-10)
+        # fresnel with the complex n2: real and imaginary parts of both amplitude coefficients
+        rvc, rhc = em.fresnel(n1, complex(n2, ni), t)
+        for nm, proj, val in (("Rv.re", "fst (fst", complex(rvc).real), ("Rv.im", "snd (fst", complex(rvc).imag),
+                              ("Rh.re", "fst (snd", complex(rhc).real), ("Rh.im", "snd (snd", complex(rhc).imag)):
+            add("fresnel_complex_n2." + nm, f"{proj} (fresnel_complex_n2 {r(n1)} {r(n2)} {r(ni)} {r(t)}))", [n1, n2, ni, t], val,
+                "c08_cprep.", 1e-9, 1e-12)
     # per*2per* converters against the list model, element by element (1-3 extra dimensions: each lane is a 1-d case)
     for k in range(ctx.n(4, 40)):
         m = rng.randint(1, 5)
@@ -257,13 +286,45 @@ def law_sweep(ctx, em):
         rv, rh = em.fresnel(a, nc, min(th, 89.9))
         if not (abs(rv) <= 1 + 1e-9 and abs(rh) <= 1 + 1e-9):
             out.append(("fresnel-bounded-complex", f"|R| > 1 for complex n2 at {[a, nc, th]}", {"law": "fresnel-bounded-complex", "args": [a, str(nc), th]}))
+        rv, rh = em.fresnel(a, nc, 0.0)
+        if not abs(abs(rv) - abs(rh)) <= 1e-12:
+            out.append(("fresnel-normal-complex", f"|Rv| != |Rh| at normal incidence for complex n2 {[a, nc]}: {abs(rv)!r} vs {abs(rh)!r}",
+                        {"law": "fresnel-normal-complex", "args": [a, str(nc)]}))
+        # the complex evaluation continues the real one (theorem fresnel_complex_reduces_to_real): Im n2 = 1e-13 n2 is invisible
+        if s1[i] <= b * (1 - 1e-3) and th < 89.9:
+            (rvr, rhr), (rvc, rhc) = em.fresnel(a, b, th), em.fresnel(a, complex(b, 1e-13 * b), th)
+            if not (abs(rvc - rvr) <= 1e-6 and abs(rhc - rhr) <= 1e-6):
+                out.append(("fresnel-complex-limit", f"fresnel({a}, {b}+1e-13j*{b}, {th}) = {(rvc, rhc)!r} but with real n2 = {(rvr, rhr)!r}",
+                            {"law": "fresnel-complex-limit", "args": [a, b, th]}))
+    # a lossless medium given in complex TYPE (imaginary part exactly 0) is inside the domain "real or complex n2 with positive
+    # real part": snell / fresnel must return what they return for the same n2 given as a float (NaN beyond total reflection)
+    def same(u, v):
+        u, v = np.asarray(u, dtype=complex).ravel(), np.asarray(v, dtype=complex).ravel()
+        return u.shape == v.shape and bool(np.all((np.isnan(u) & np.isnan(v)) | (np.abs(u - v) <= 1e-9)))
+    for i in range(0, min(n, ctx.n(60, 2000))):
+        a, b, th = float(n1[i]), float(n2[i]), float(min(t[i], 89.9))
+        b2 = float(n2[(i + 1) % n])
+        with np.errstate(all="ignore"):
+            want_s, want_f = em.snell(a, b, th), em.fresnel(a, b, th)
+            want_sa = np.array([em.snell(a, b, th), em.snell(a, b2, th)])
+            want_fa = np.array([em.fresnel(a, b, th), em.fresnel(a, b2, th)]).T
+            for label, arg, ws, wf in (("complex(b, 0)", complex(b, 0.0), want_s, want_f), ("np.complex128(b)", np.complex128(b), want_s, want_f),
+                                       ("all-lossless complex array", np.array([b + 0j, b2 + 0j]), want_sa, want_fa)):
+                try:
+                    got_s, got_f = em.snell(a, arg, th), em.fresnel(a, arg, th)
+                    bad = None if same(got_s, ws) and same(got_f, wf) else f"returns {got_s!r}, {got_f!r} instead of {ws!r}, {wf!r}"
+                except Exception as e:  # noqa
+                    bad = f"raises {type(e).__name__}: {str(e)[:90]}"
+                if bad:
+                    out.append(("snell-complex-typed-real", f"snell/fresnel(n1={a}, n2={label} with b={b}, theta1={th}) {bad}; the same medium as a float works",
+                                {"law": "snell-complex-typed-real", "args": [a, b, b2, th], "form": label}))
     for bad in ((0.0, 1.3), (1.0, -1.0)):
         try:
             em.snell(bad[0], bad[1], 10.0)
             out.append(("snell-rejects", f"snell{bad} did not raise", {"law": "snell-rejects", "args": list(bad)}))
         except Exception:  # noqa
             pass
-    return out, 12 * x.size + 7 * v.size + 6 * min(n, ctx.n(400, 20000))
+    return out, 12 * x.size + 7 * v.size + 8 * min(n, ctx.n(400, 20000)) + 6 * min(n, ctx.n(60, 2000))
 
 
 def run(ctx):
@@ -297,7 +358,7 @@ def run(ctx):
                        "broadcast inputs), incidence angles and refractive indices, spectra with 0-3 extra dimensions; distinct and "
                        "non-trivial = Coq proved the enclosure for a distinct (function, arguments); law_evaluations counts the "
                        "numeric law sweep on the implementation")
-    ctx.assumptions += ["domain of the statement: 1e8 <= f <= 1e15 Hz, 2 <= T <= 1e4 K, 1e-6 <= h f / k T <= 600; real n1, real n2 for the theorems"]
+    ctx.assumptions += ["domain of the statement: 1e8 <= f <= 1e15 Hz, 2 <= T <= 1e4 K, 1e-6 <= h f / k T <= 600; real n1 > 0, real or complex n2 with positive real part, incidence below 90 degrees for the Fresnel bounds"]
     return ctx.finish(trusted_base=TRUSTED)
 
 
